@@ -108,7 +108,13 @@ func c16Parsley(data []byte, mk func() parsley.Parser) (out string) {
 			out = OPanic
 		}
 	}()
-	f := text.NewFile("doc.json", data)
+	// the file owns its content: the buffer it was made from is reused by the caller straight away (a scanner's
+	// buffer, say) and the document is evaluated afterwards
+	buf := append([]byte(nil), data...)
+	f := text.NewFile("doc.json", buf)
+	for i := range buf {
+		buf[i] = '#'
+	}
 	fs := parsley.NewFileSet(f)
 	// one parser value for all the evaluations of this document, after it has evaluated other documents
 	p := mk()
